@@ -45,6 +45,11 @@ class Driver:
             self.tman = tm.TokenManager(self.ctx); self.mman = mm.MessageManager(self.tman); self.mi = MI(self.loop)
             self.mman.message_interface = self.mi; self.tman.token_interface = self.mman; self.ctx.request_interfaces.append(self.tman)
         self.tman._token = inp["token0"]      # values above 65535 (wrap-around region) are set directly
+        self.last_token = None
+        orig_next_token = self.tman.next_token
+        def recording_next_token():
+            t = orig_next_token(); self.last_token = t; return t
+        self.tman.next_token = recording_next_token      # observe token assignment from outside
         self.reqs = {}; self.out = []; self.nexc = 0
     # -- helpers
     def addr(self, r, incoming=False, mcl=False):
@@ -97,9 +102,9 @@ class Driver:
             if req.observation is not None:
                 req.observation.register_callback(lambda resp, q=q: self.out.append(["notify", q, int.from_bytes(resp.payload, "big"), list(resp.token), self.rid_of(resp.remote)]), _suppress_deprecation=True)
                 req.observation.register_errback(lambda e, q=q: self.out.append(["obserr", q, self.errname(e)]), _suppress_deprecation=True)
-        before = self.tman._token
+        self.last_token = None
         self.guarded(go)
-        if self.tman._token != before: self.out.append(["token", q, list(m.token)])      # next_token was called for this request
+        if self.last_token is not None: self.out.append(["token", q, list(self.last_token)])      # next_token was called for this request
     def ev_recv(self, r, mcl, mtype, code, mid, token, observe, rid):
         A = self.aiocoap
         m = A.Message(mtype=A.numbers.types.Type(mtype), code=A.numbers.codes.Code(code), mid=mid, token=bytes(token))
